@@ -204,6 +204,22 @@ def run_c11(rep):
     fam_total.component_family(rep, sizes(rep, 8000, 160000))
 
 
+def run_c01(rep):
+    import fam_compile
+    fam_compile.compile_family(rep, sizes(rep, 400, 8000))
+    n, ops = sizes(rep, (320, 14), (5000, 50))
+    before = len(rep.disagreements)
+    families.play_family(rep, n, ops, features=dict(fam_compile.FEATURES, stmt_faults=0.02),
+                         weights=dict(choose=78, goto=5, undo=4, redo=2, read=4, bad=2, save=2, load=1, fresh=1, loadbad=0),
+                         oracle_names=["oracle_c01"], known_classes=known_classes("C01"), label="c01-play")
+    # the model's rendering IS the reference meaning (render_cItems / render_top): where the real engine's text, choices,
+    # directives or variables differ from it on one of these sources, that play-through is a failing input of C01
+    for d in rep.disagreements[before:]:
+        rep.violations.append({"cls": None, "family": "c01-play", "what": "the real engine's observations differ from the reference meaning "
+                               "(engine model, proved equal to the source-level semantics): " + json.dumps(d.get("detail"))[:400],
+                               "source": d.get("source"), "ops": d.get("ops"), "variant": "main"})
+
+
 # ------------------------------------------------------------------------------------------------ registry
 
 PROPS = {
@@ -463,6 +479,31 @@ PROPS = {
                    "the extracted loop table and the search on the real compiler; CPython's wall-clock behaviour is observed by "
                    "a timer, not modelled",
     ),
+    "C01": dict(
+        theorems=[T + t for t in ["renderExpr_ref", "renderTok_inl", "renderToks_inls", "renderToks_attachTags", "render_line",
+                                  "render_cItem", "render_cItems", "render_cBranches", "renderChoiceTexts_ref", "render_top",
+                                  "compilePassage_execute", "cleanup_spec", "cleanup_noCond", "trimTrailing_prefix",
+                                  "renderToks_append", "read_noop"]],
+        run=run_c01,
+        rule="source ASTs from the typed generator (parameters; content lines of text / {expr} / {expr:spec} / {c ? a | b} parts with "
+             "tags, glue, trailing comments, escaped slashes, apostrophes; blank lines; # comments; ~ statements; @py blocks; "
+             "@if/@elif/@else and @for nested to depth 2-3 with statements, directives, choices and jumps inside; @render, @input, "
+             "@hook, @join sections with choice blocks; top-level and block jumps) printed as .bard text: (1) the real compiler's "
+             "story must equal Src.compileStory of the AST (every passage: content, execute, choices, inputs, params, tags; "
+             "compile_file + json.load = compile_string on every 4th); (2) on every 8th and on every mismatch the real engine "
+             "plays both the real and the reference compilation under 3 random walks; (3) generated play-throughs on the real "
+             "engine against the engine model, whose rendering is proved equal to the reference semantics; distinct by hash of source",
+        level_text="proof: render_cItems / render_cItem / render_cBranches (mutual induction over the source syntax, for every Sem): "
+                   "rendering the compiled tokens of a body is the documented meaning of its items — a content line is the text "
+                   "of its parts plus one newline unless glued (render_line), tags and comments show nothing, {code:spec} formats "
+                   "(renderExpr_ref), {c ? a | b}, statements run where they stand, @if takes the first truthy branch, @for binds, "
+                   "renders and offers per element, a jump ends the rendering; render_top + compilePassage_execute: top-level "
+                   "commands are exactly the execute list in order and run before the text, @input / choices / comments add no "
+                   "text, @join ends the section; cleanup_spec: only newline tokens are ever dropped. Hypotheses: colonSafe "
+                   "(the engine's first-colon split reads {code:spec} as written — false for slices / dict displays, recorded "
+                   "finding C01-F2) and glueSafe for the compile model (finding C01-F1). Partial: the parser is modelled by "
+                   "compileStory on generated sources (checked against the real compiler every run), not as a text parser",
+    ),
 }
 
 
@@ -511,6 +552,12 @@ def witness_fails(wj):
         c["cycles"] = False
         fs = getattr(oracles, wj["oracle"])(c)
         return any(f["cls"] == wj.get("cls") for f in fs)
+    if fam == "outtext":
+        c = corr_play.run_fixed(wj["source"], wj["ops"])
+        if "compile_error" in c:
+            return None
+        outs = [c["real"].get("init", {}).get("out", {})] + [st["resp"].get("out", {}) for st in c["real"].get("steps", []) if isinstance(st.get("resp"), dict)]
+        return any(wj["bad_substring"] in (o or {}).get("content", "") for o in outs)
     if fam == "browser":
         import fam_browser
         c = corr_play.run_fixed(wj["source"], wj["ops"])
